@@ -188,7 +188,7 @@ def check_struct(ctx, facts, spec, analyzers, verified):
                 if m == spec["ctor"]:
                     continue
                 for x in user_nodes(fn):
-                    if x["k"] == "MethodCall" and x["name"] in LEN_CHANGERS and nf.nf(x["recv"]) == "self.%s" % f and not (m == spec["reset"] and x["name"] == "clear"):
+                    if x["k"] == "MethodCall" and x["name"] in LEN_CHANGERS and nf.nf(x["recv"]) == "self.%s" % f and not (m == spec["reset"] and x["name"] in ("clear", "extend")):
                         ctx.violation("RESET-length", spec["prefix"] + m, "%s.%s length changed" % (name, f), hirq.loc(x),
                                       "`%s` changes the length of %s, which %s restores with fill()/an index loop assuming the constructor's length" % (hirq.show(x)[:50], f, spec["reset"]))
     return an, M, L, n
